@@ -118,6 +118,11 @@ class DocumentableKind(Enum):
     PROPERTY            = 150
     VARIABLE            = 100
 
+RESERVED_PAGE_NAMES = frozenset((
+    'index', 'moduleIndex', 'classIndex', 'nameIndex', 'undoccedSummary',
+    'all-documents'))
+"""Names (without C{.html}) of the pages that do not belong to a documentable."""
+
 class Documentable:
     """An object that can be documented.
 
@@ -240,7 +245,12 @@ class Documentable:
         if list(self.system.root_names) == [page_obj.fullName()]:
             page_url = 'index.html'
         else:
-            page_url = f'{quote(page_obj.fullName())}.html'
+            page_name = page_obj.fullName()
+            if page_name in RESERVED_PAGE_NAMES:
+                # Don't clash with the summary pages; '-' cannot occur in a
+                # module name, so this cannot clash with another module.
+                page_name += '-module'
+            page_url = f'{quote(page_name)}.html'
         if page_obj is self:
             return page_url
         else:
